@@ -304,6 +304,25 @@ def taps (l : Conv α) (oh ow h w ph pw : Nat) : List (Nat × Nat × Nat × Nat)
     let _w := n * l.stride.2 + w * l.dilation.2
     if _h < ph ∧ _w < pw then some (m, n, _h, _w) else none))
 
+/-- kernel gradient: one guarded sum per `(f, c, h, w)` -/
+def kernelGrad (l : Conv α) (xp delta : V3 α) (kf kc kh kw oh ow ph pw : Nat) : V4 α :=
+  (List.range kf).map (fun f => (List.range kc).map (fun c =>
+    (List.range kh).map (fun h => (List.range kw).map (fun w =>
+      (taps l oh ow h w ph pw).foldl (fun sum t =>
+        sum + L.get3D 0 xp c t.2.2.1 t.2.2.2 * L.get3D 0 delta f t.1 t.2.1) (0 : α)))))
+
+/-- gradient with respect to the *padded* input: scatter in the loop order `f, c, h, w, m, n` -/
+def paddedInputGrad (l : Conv α) (ks : List (V3 α)) (delta : V3 α) (kf kc kh kw oh ow ph pw : Nat) : V3 α :=
+  (List.range kf).foldl (fun acc f => (List.range kc).foldl (fun acc c =>
+    (List.range kh).foldl (fun acc h => (List.range kw).foldl (fun acc w =>
+      (taps l oh ow h w ph pw).foldl (fun acc t =>
+        L.mod3 (· + L.get4D 0 ks f c h w * L.get3D 0 delta f t.1 t.2.1) acc c t.2.2.1 t.2.2.2) acc)
+      acc) acc) acc) (L.replicate3 kc ph pw 0)
+
+/-- remove the padding frame -/
+def crop (l : Conv α) (pgrad : V3 α) (ih iw : Nat) : V3 α :=
+  pgrad.map (fun ch => ((ch.drop l.padding.1).take ih).map (fun row => (row.drop l.padding.2).take iw))
+
 /-- `Convolution::backward` (after the repair of D5): kernel and input gradients accumulated in one
     pass that mirrors the index arithmetic of the forward pass; the input gradient is cropped by the
     padding -/
@@ -331,18 +350,9 @@ def backward (l : Conv α) (gradient input output : Tensor α) :
         match Tensor.pad3d x ph pw with
         | .error e => .error e
         | .ok xp =>
-          -- kernel gradient: one guarded sum per (f, c, h, w)
-          let kgrad : V4 α := (List.range kf).map (fun f => (List.range kc).map (fun c =>
-            (List.range kh).map (fun h => (List.range kw).map (fun w =>
-              (taps l oh ow h w ph pw).foldl (fun sum t =>
-                sum + L.get3D 0 xp c t.2.2.1 t.2.2.2 * L.get3D 0 delta f t.1 t.2.1) (0 : α)))))
-          -- padded input gradient: scatter in the loop order f, c, h, w, m, n
-          let pgrad : V3 α := (List.range kf).foldl (fun acc f => (List.range kc).foldl (fun acc c =>
-            (List.range kh).foldl (fun acc h => (List.range kw).foldl (fun acc w =>
-              (taps l oh ow h w ph pw).foldl (fun acc t =>
-                L.mod3 (· + L.get4D 0 ks f c h w * L.get3D 0 delta f t.1 t.2.1) acc c t.2.2.1 t.2.2.2) acc)
-              acc) acc) acc) (L.replicate3 kc ph pw 0)
-          let igrad : V3 α := pgrad.map (fun ch => ((ch.drop l.padding.1).take ih).map (fun row => (row.drop l.padding.2).take iw))
+          let kgrad : V4 α := kernelGrad l xp delta kf kc kh kw oh ow ph pw
+          let pgrad : V3 α := paddedInputGrad l ks delta kf kc kh kw oh ow ph pw
+          let igrad : V3 α := crop l pgrad ih iw
           match Tensor.triple igrad, Tensor.quadruple kgrad with
           | .ok ig, .ok kg => .ok (ig, kg, none)
           | .error e, _ => .error e
@@ -429,6 +439,21 @@ def forward (l : Deconv α) (x : Tensor α) : Except Err (Tensor α × Tensor α
       | .ok _ => .error .reject
     | _, _ => .error .index
 
+/-- one step of the backward scatter: tap `t` of filter `f`, channel `c` adds to the input gradient
+    and to the kernel gradient -/
+def gradStep (x : V3 α) (ks : List (V3 α)) (delta : V3 α) (f c : Nat) (acc : V3 α × V4 α)
+    (t : Nat × Nat × Nat × Nat × Nat × Nat) : V3 α × V4 α :=
+  let dv := L.get3D 0 delta f t.2.2.2.2.1 t.2.2.2.2.2
+  (L.mod3 (· + dv * L.get4D 0 ks f c t.2.2.1 t.2.2.2.1) acc.1 c t.1 t.2.1,
+   L.mod4 (· + dv * L.get3D 0 x c t.1 t.2.1) acc.2 f c t.2.2.1 t.2.2.2.1)
+
+/-- the backward scatter loops over `f, c, taps`, starting from zeros -/
+def gradPass (x : V3 α) (ks : List (V3 α)) (delta : V3 α) (kf kc kh kw ih iw : Nat)
+    (tp : List (Nat × Nat × Nat × Nat × Nat × Nat)) : V3 α × V4 α :=
+  (List.range kf).foldl (fun acc f => (List.range kc).foldl (fun acc c =>
+    tp.foldl (gradStep x ks delta f c) acc) acc)
+    (L.replicate3 kc ih iw 0, L.replicate4 kf kc kh kw 0)
+
 /-- `Deconvolution::backward` -/
 def backward (l : Deconv α) (gradient input output : Tensor α) :
     Except Err (Tensor α × Tensor α × Option (Tensor α)) :=
@@ -450,12 +475,7 @@ def backward (l : Deconv α) (gradient input output : Tensor α) :
         let oh := (dr :: dm).length
         let ow := dr.length
         let tp := taps l ih iw kh kw oh ow
-        let res : V3 α × V4 α := (List.range kf).foldl (fun acc f => (List.range kc).foldl (fun acc c =>
-          tp.foldl (fun (acc : V3 α × V4 α) t =>
-            let dv := L.get3D 0 delta f t.2.2.2.2.1 t.2.2.2.2.2
-            (L.mod3 (· + dv * L.get4D 0 ks f c t.2.2.1 t.2.2.2.1) acc.1 c t.1 t.2.1,
-             L.mod4 (· + dv * L.get3D 0 x c t.1 t.2.1) acc.2 f c t.2.2.1 t.2.2.2.1)) acc) acc)
-          (L.replicate3 kc ih iw 0, L.replicate4 kf kc kh kw 0)
+        let res : V3 α × V4 α := gradPass x ks delta kf kc kh kw ih iw tp
         match Tensor.triple res.1, Tensor.quadruple res.2 with
         | .ok ig, .ok kg => .ok (ig, kg, none)
         | .error e, _ => .error e
